@@ -162,3 +162,63 @@ def record_failures(run, session, bads, seen, kind="spec"):
         seen.add(sig)
         detail["session"] = session[0][:6000]
         run.spec_fail.append((sig, session[0][:6000], detail))
+
+
+# ------------------------------------------------------------------------------------------------
+# correspondence of the block-building model (Model/Builder.lean: hint guards, table building, earliest time, block writer)
+def _canon_block(block):
+    """block bytes with the elements of the address-event-count array sorted (the library iterates a hash map)"""
+    import cborgen
+    node, _ = cborgen.parse(block)
+    ch = node.children
+    for k in range(0, len(ch) - 1, 2):
+        if ch[k].major == 0 and ch[k].arg == 4 and ch[k + 1].children:
+            els = ch[k + 1].children
+            parts = sorted(block[e.start:e.end] for e in els)
+            return block[:els[0].start] + b"".join(parts) + block[els[-1].end:]
+    return block
+
+
+def judge_builder(run, sessions, res, limit=5):
+    """single-block outputs of sessions that only buffer records: the bytes of the block the library wrote must be the bytes the
+    model builds (`bld` driver) from the same records and hints – up to the order of the address-event array"""
+    import cborgen
+    lines, metas = [], []
+    for s, r in zip(sessions, res):
+        if r["results"] is None or not r["plain"] or not r["plain"][0][0]:
+            continue
+        ref = s[1]
+        toks = s[0].split()
+        if len(ref.bps) != 1 or any(t.split(":")[0] not in ("exp", "FP", "BP", "X", "Q", "A", "M", "W", "D", "C") for t in toks):
+            continue
+        data = r["plain"][0][0]
+        try:
+            top, _ = cborgen.parse(data)
+            blocks = top.children[2].children
+        except Exception:
+            continue
+        if len(blocks) != 1:
+            continue
+        p = {"qrh": G.ALL_QRH, "sigh": G.ALL_SIGH, "rrh": 3, "odh": 3, "tps": 1000000}
+        p.update(ref.bps[0])
+        recs = [t for t in toks if t[:2] in ("Q:", "A:", "M:")]
+        if p.get("max", 10000) <= len(recs) or toks.count("W") != 1:
+            continue                      # the block may have been flushed before the last record
+        lines.append("bld %d %d %d %d %d 0 %s" % (p["qrh"], p["sigh"], p["rrh"], p["odh"], p["tps"], " ".join(recs)))
+        metas.append((s, data[blocks[0].start:blocks[0].end]))
+    if not lines or not run.driver_ok:
+        return
+    for (s, blk), m in zip(metas, G.run_driver(lines)):
+        run.count("builder-model: block compared byte for byte")
+        if m is None or not m.startswith("M "):
+            continue
+        hx = m[2:].split(" #")[0]
+        try:
+            same = bytes.fromhex(hx) == blk or _canon_block(bytes.fromhex(hx)) == _canon_block(blk)
+        except Exception:
+            same = False
+        if not same and len(run.model_fail) < limit:
+            run.model_fail.append((s[0][:5000], {"correspondence": "Model.Builder (hint guards, tables, earliest time) + Model.Schema writer vs the block the library wrote",
+                                                 "model block": hx[:3000], "library block": blk.hex()[:3000]}))
+        elif same and "conforms=yes" not in m and len(run.model_fail) < limit:
+            run.model_fail.append((s[0][:5000], {"correspondence": "the block value built lies outside Conforms block", "model": m[-60:]}))
